@@ -214,11 +214,20 @@ def gen_match(rng: Any, ssh_safe: bool, server: bool = False) -> str:
 
 def gen_host(rng: Any, ssh_safe: bool) -> str:
     pats = []
-    for _ in range(rng.choice([1, 1, 2, 3])):
-        p = gen_pattern(rng, HOSTS)
+    for _ in range(rng.choice([1, 1, 2, 2, 3])):
         # OpenSSH separates Host patterns by whitespace only (a comma is an ordinary character there; asyncssh used
-        # to split at commas - repaired); comma-containing arguments are kept as they are, also for `ssh -G`
+        # to split at commas - repaired): most arguments are single patterns, a good part of them negated (a negated
+        # argument vetoes the whole line whatever the other arguments match), some contain commas and are kept as
+        # they are, also for `ssh -G`
+        if rng.random() < 0.15:
+            p = gen_pattern(rng, HOSTS)
+        else:
+            p = rng.choice(PATTERN_POOL) if rng.random() < 0.7 else rng.choice(HOSTS)
+            if rng.random() < 0.3:
+                p = '!' + p
         pats += [p]
+    if len(pats) > 1 and all(x.startswith('!') for x in pats) and rng.random() < 0.7:
+        pats[rng.randrange(len(pats))] = rng.choice(['*', '*', rng.choice(HOSTS)])
     return spell_keyword(rng, 'Host') + rng.choice([' ', ' ', '\t', '=' if not ssh_safe else ' ']) + ' '.join(pats)
 
 
